@@ -9,6 +9,9 @@ in E2 with a *symbolic mesh shift* (3 reals); spglib is called by the real code 
                inside the documented 0.01 band)
   image        every grid point equals +-R q_rep + G for its representative q_rep and some reciprocal point-group operation
                R of the crystal (minus only with time reversal)   -- mixed integer/real linear arithmetic in the shift
+api          the same three assertions on the GridPoints object built by Phonopy.init_mesh (rotations handed over by the API, mesh numbers
+             given explicitly or as a length through length2mesh, which is documented to force a Gamma-centred mesh) - evaluated
+             on concrete objects (ground facts), plus: length2mesh gives equal numbers along symmetry-equivalent axes.
 Precondition (documented tolerance): each shift component is an exact multiple of 1/2 or has |2s - rint(2s)| >= 0.02.
 """
 import itertools
@@ -46,6 +49,8 @@ def units(tier):
         for gc in (True, False):
             for tr in (True, False):
                 u.append(("symshift", c, m, gc, tr))
+    for c, m in [("hex", (3, 3, 2)), ("mono", (2, 3, 2)), ("tetra_a", (4, 2, 4)), ("tetra_c", (2, 2, 3)), ("hex", 14.0), ("tetra_a", 11.0), ("mono", 9.0), ("ortho", 10.0)]:
+        u.append(("api", c, m, True, True)); u.append(("api", c, m, False, True))
     if tier == "thorough":
         for c, m in [("tetra_c", (4, 4, 3)), ("mono", (2, 3, 2)), ("cubic", (5, 5, 5)), ("tetra_a", (2, 4, 4)), ("hex", (5, 5, 3)), ("tric", (3, 2, 4)), ("mono", (4, 2, 4)), ("tetra_a", (4, 2, 4))]:
             for gc in (True, False):
@@ -141,6 +146,35 @@ def _decide(res, u, v, m, key, svars, sub):
     (res.violations if ok else res.unconfirmed).append({"key": key, "what": what, "replay": {"unit": [str(x) for x in u], "shift": shift}})
 
 
+def api_unit(u, res):
+    """the same assertions on the GridPoints object that Phonopy.init_mesh builds (rotations handed over by the API;
+    mesh numbers from a length through length2mesh): ground facts, evaluated by check_path on a concrete object"""
+    import phonopy
+    kind, cid, mesh, gc, tr = u
+    cell, rots, recs = crystal(cid)
+    ph = phonopy.Phonopy(cell, supercell_matrix=np.eye(3, dtype=int), primitive_matrix=np.eye(3))
+    n = len(ph.supercell)
+    ph.force_constants = np.zeros((n, n, 3, 3), dtype="double")
+    for shift in (None, [0.5, 0.5, 0.5]):
+        ph.init_mesh(mesh=mesh if not isinstance(mesh, tuple) else list(mesh), shift=shift, is_time_reversal=tr, is_mesh_symmetry=True, is_gamma_center=gc, with_eigenvectors=False)
+        gp = ph._mesh._gp
+        mn = tuple(int(x) for x in ph._mesh.mesh_numbers)
+        if not isinstance(mesh, tuple):
+            # a length-specified mesh has equal numbers along symmetry-equivalent axes (else the point group could not be used)
+            L = ph.primitive.cell
+            lens = np.sqrt((np.linalg.inv(L) ** 2).sum(axis=0))
+            ok = all(mn[a] == mn[b] for a in range(3) for b in range(3) if any((abs(r[a, b]) == 1 and abs(r[b, a]) == 1 and a != b) for r in rots) and abs(lens[a] - lens[b]) < 1e-8)
+            _ground(res, "length2mesh gives equal mesh numbers along symmetry-equivalent axes [%s, %s -> %s]" % (cid, mesh, mn), ok, "%s:api:%s:%s:length" % (PID, cid, mesh), "mesh numbers %s from length %s break the lattice symmetry" % (mn, mesh))
+        sreq = [z3.RealVal(Fraction(float(x))) for x in (shift or [0, 0, 0])]
+        u2 = ("api", cid, mn, gc, tr, tuple(shift or [0, 0, 0]))
+        gce = gc if isinstance(mesh, tuple) else True          # documented: a length-specified mesh is forced to be Gamma-centred
+        u2 = ("api", cid, mn, gce, tr, tuple(shift or [0, 0, 0]))
+        check_path(res, u2, gp, mn, recs, tr, gce, [], [], sreq, "api shift=%s mesh=%s" % (shift, mesh))
+    res.twins.append({"name": "api twin", "verdict": "sat"})
+    res.samples.append({"unit": res.unit, "mesh_numbers": list(mn)})
+    return res
+
+
 def replay(u, shift, sub):
     """numerical re-evaluation on the unmodified classes with ordinary arrays"""
     from phonopy.structure.grid_points import GridPoints
@@ -176,6 +210,8 @@ def run_unit(u):
     res = Result("/".join(str(x) for x in u))
     harness.setup()
     import phonopy.structure.grid_points as gpm
+    if u[0] == "api":
+        return api_unit(u, res)
     kind, cid, mesh, gc, tr = u
     cell, rots, recs = crystal(cid)
     rec_lat = np.linalg.inv(cell.cell)
@@ -238,7 +274,7 @@ def main(tier, seed):
     harness.setup()
     us = units(tier)
     chk.bounds = ["crystals %s; meshes as listed per unit; shift components in [-0.1, 0.55] (quick) / [-0.6, 0.55] (thorough)" % sorted(CRYSTALS), "options is_gamma_center x is_time_reversal enumerated; fit_in_BZ off"]
-    chk.outside = ["spglib's own correctness (get_stabilized_reciprocal_mesh is trusted)", "Brillouin-zone folding", "length2mesh and GeneralizedRegularGridPoints",
+    chk.outside = ["spglib's own correctness (get_stabilized_reciprocal_mesh is trusted)", "Brillouin-zone folding", "GeneralizedRegularGridPoints",
                    "shifts inside the snapping band 0 < |2s - rint(2s)| < 0.02"]
     chk.assumptions = ["documented tolerance: |2s - rint(2s)| < 0.01 is treated by phonopy as an exact zero/half shift; the band up to 0.02 is excluded from the inputs",
                        "equality of weighted sums with the unreduced mesh follows from weights + image assertions for any function invariant under the reciprocal point group and time reversal"]
